@@ -106,6 +106,16 @@ def gen_cases(chk):
                 kind = rng.choice((0, 1, 2, 3, 4, 5))
                 data = "g:%d:%x:%x:%s:%s" % (kind, rng.getrandbits(24), n, dbits(scale), dbits(off))
                 orc.append("rt %x %s %s %x %s %s 0 %s %s" % (ty, tup5(t), tup5(t), mode, dbits(absb), dbits(rel), cfg, data))
+    # bounds below one ulp of the data on data that still compresses (plateaus away from zero): the exact-value codec needs all
+    # mantissa bits (required length beyond the type's width), a branch of its own in every kernel
+    for t in ((300,), (48, 64), (8, 16, 16), (3, 4, 5, 6)):
+        n = 1
+        for v in t:
+            n *= v
+        for ty in (0, 1):
+            for cfg in ("szMode=SZ_BEST_SPEED;withLinearRegression=NO", "szMode=SZ_BEST_SPEED", "withLinearRegression=NO"):
+                for mode, absb, rel in ((0, 1e-6 if ty == 0 else 1e-15, 1e-3), (1, 1.0, 1e-8 if ty == 0 else 1e-17)):
+                    orc.append("rt %x %s %s %x %s %s 0 %s g:3:%x:%x:%s:%s" % (ty, tup5(t), tup5(t), mode, dbits(absb), dbits(rel), cfg, rng.getrandbits(24), n, dbits(100.0), dbits(100.0)))
     # bounds and ranges beyond what a float can carry (double data, the combined modes use min/max of two doubles)
     for t in ((500,), (24, 40)):
         n = 1
